@@ -30,7 +30,11 @@ PROP = {
                    "empty / single-element / whole-key / whole-container ranges) the wrapper model and the specification give the same observations call by call - "
                    "inserted flags, positions incl. hinted insertion and stable order of equivalent keys, counts, bounds, equal_range, positions returned "
                    "by erase, node-handle contents (plain and hinted, refused or accepted), out_of_range from at(), try_emplace / insert_or_assign / "
-                   "operator[], merge, swap, copy / move assignment and construction, == != < <= > >=, full traversals (hence the same contents); "
+                   "operator[], merge, swap, copy / move assignment and construction, construction from a range / initializer list, reverse traversal "
+                   "(rbegin / crbegin), vector reserve / shrink_to_fit, unordered reserve / rehash / max_load_factor(z) (the wrapper rebuilds the table by "
+                   "re-inserting every element: proved to give the same table), == != < <= > >=, full traversals (hence the same contents). One abstract call stands for "
+                   "all its C++ spellings (insert(const value_type&) / (value_type&&) / (P&&), emplace with arguments / a pair / std::piecewise_construct, "
+                   "const key_type& / key_type&& overloads, erase(iterator) / erase(const_iterator), const / non-const lookups); c06_hist picks the spelling at random; "
                    "C06_history_vs_spec restates C06_full with the specification in the place of the std container. "
                    "(B) the isolated decision-logic theorems: unordered erase(first,last) removes exactly what the iterators enumerate (all three unordered "
                    "wrappers, every pair of traversal / lookup iterators), hint_closest, hint_unique, node handles, equal_range, at / try_emplace / "
@@ -40,9 +44,12 @@ PROP = {
                    "same answers line by line (suites hist_*_spec); (2) 'momo::stdish is what StdWrapOps says' - the same histories on momo against the "
                    "wrapper model (suites hist_*_wrap); (3) momo against libstdc++ directly (c06_ordered / c06_unordered / c06_alloc / c06_hist). "
                    "LEFT OUT of the history theorems (hence PARTIAL): allocator propagation and unequal allocators (histories run with equal allocators; "
-                   "differential only, c06_alloc); bucket interface, reserve / rehash / load factors, capacity / shrink_to_fit / data, reverse iterators, "
-                   "max_size, key_comp / hash_function, heterogeneous lookup, constructors from ranges, self-assignment / self-merge, C++20 ranges / "
-                   "three-way comparison are not calls of the model. One line of the "
+                   "differential only, c06_alloc); the bucket interface proper (bucket / bucket_size / bucket_count / local iterators / load_factor values), capacity values, "
+                   "max_size, key_comp / value_comp / hash_function / key_eq, heterogeneous lookup, deduction guides, self-assignment / self-merge are not calls of the model: "
+                   "they are checked at property level only (c06_api: differential against libstdc++ and against the invariants [unord.req] states: rehash(n) => "
+                   "bucket_count() >= n and >= size() / max_load_factor(), reserve(n) => no rehash while size() <= n, sum of bucket_size = size(), every element in "
+                   "bucket(key), local iterators enumerate exactly the elements, load_factor() = size() / bucket_count() and <= max_load_factor() after an insertion); "
+                   "C++20 ranges / three-way comparison are not compiled (C++17). One line of the "
                    "specification follows libstdc++ rather than the standard's wording: unordered insert(hint, node) destroys a refused node "
                    "(libstdc++ implements it as _M_reinsert_node(std::move(nh)).position, momo does the same)."),
     "level_note": ("Trusted: Lean kernel + 3 standard axioms, harness (g++ 12, libstdc++ as the reference), line protocol. The native containers "
@@ -109,21 +116,34 @@ PROP = {
              "matrix: 8 wrappers x 8 trait combinations x copy/move construction (with/without allocator) / copy/move assignment / swap, contents "
              "and allocator identity against libstdc++, ledger of every block. c06_hist (history theorem tie): 10-12 runs (thorough 40-48) of 260 "
              "(500) random LEGAL calls per container kind (set, multiset, map, multimap, vector, unordered_set, unordered_map, unordered_multimap, "
-             "the last three also as _open variants) over the complete call alphabet of StdSpec.lean - incl. range / initializer-list insert and assignment, hinted and "
+             "the last three also as _open variants) over the complete call alphabet of StdSpec.lean - every call in a randomly chosen C++ spelling (lvalue / rvalue / convertible-pair "
+             "insert, emplace with constructor arguments / a pair / std::piecewise_construct with a key of another type (key built in a buffer), key_type&& overloads, "
+             "erase(iterator) vs erase(const_iterator), const vs non-const lookups, vector ranges through random-access / forward / single-pass input iterators, data()) - "
+             "incl. construction from a range / initializer list in every constructor form, rbegin / crbegin traversals, reserve / rehash / max_load_factor / shrink_to_fit, "
+             "range / initializer-list insert and assignment, hinted and "
              "plain node-handle insertion (nodes usually extracted from the other container), erase_if, merge in both directions, copy / move "
              "construction, size / empty, unordered erase(first,last) in the shapes empty / single by traversal / single through a lookup result / "
              "whole key by traversal / whole key by equal_range / whole, a == b after erase_if on one side and erase(key) on the other - every call line is written twice: with momo's answer for the wrapper model and with libstdc++'s answer for the specification; "
-             "momo and libstdc++ are also compared directly. distinct_nontrivial = number of distinct (suite, run, key "
+             "momo and libstdc++ are also compared directly. c06_api (property level, ASan+UBSan, counted elements CKey / CVal, propagating stateful allocator, stateful transparent "
+             "comparator / hash / equality): 30 runs (thorough 160) of 400 (600) calls per kind over all insert / emplace / emplace_hint spellings incl. argument-less and piecewise, "
+             "try_emplace / insert_or_assign / operator[] with key_type&& (moved-from flags compared with libstdc++), at() const, heterogeneous lookups with int and with a key "
+             "equivalent to several elements (Decade), const and non-const lookups, erase(iterator) vs erase(const_iterator), observers, reverse / const traversals, six relational "
+             "operators, free swap / erase_if, node handle operator bool / key() / mapped() writes, all constructor forms (with and without comparator / hash / equality / bucket "
+             "count / allocator, from random-access / input-by-reference / input-by-value / pair<Key, Mapped> iterators and initializer lists), initializer-list insert / assignment, "
+             "deduction guides, piecewise emplace whose mapped constructor throws and emplace under an allocation fault of the stateful allocator (the key-buffer "
+             "roll-back paths of map_base::pvInsert / unordered_map::pvInsert / unordered_multimap::pvInsert: nothing leaks, nothing is destroyed twice, the container is "
+             "unchanged); unordered: max_load_factor(z) incl. refused values, rehash, reserve + fill, the bucket interface against the invariants of [unord.req]; vector: "
+             "data, assign / insert / construct from four iterator categories, emplace(pos, args), self-referencing arguments, reserve (no reallocation below the capacity), "
+             "shrink_to_fit, resize, front / back / at const. distinct_nontrivial = number of distinct (suite, run, key "
              "distribution, range, hash family) runs plus allocator-matrix rounds."),
     "runtime_only": ["ledger of the stateful allocator: every block returned through an equal allocator with its size, none left (C03/C14 piggyback)",
                      "agreement of libstdc++ with the specification StdSpec.lean on whole histories (differential: suites hist_*_spec), and of momo with libstdc++ "
                      "directly; inside the model the wrapper refines the specification by theorem (C06_history_*)",
                      "F15 pattern executed in a forked child; its crash is reported as KNOWN-FINDING only for exactly that pattern"],
     "not_modelled": ["the native containers (HashSet/HashMap/HashMultiMap, TreeSet/TreeMap, Array) — abstract specification in the model; see C01, C02, C05, C08",
-                     "in the history theorems: allocators (equal allocators assumed), bucket interface, reserve / rehash / load factors, capacity, "
-                     "reverse iterators, heterogeneous lookup, self-assignment",
-                     "iterator invalidation, proxy reference types, bucket interface, max_load_factor/rehash/reserve, constructors from ranges "
-                     "(exercised only through the allocator matrix), heterogeneous lookup (IsValidKeyArg), C++20 ranges / three-way comparison "
+                     "in the history theorems: allocators (equal allocators assumed), bucket / bucket_size / bucket_count / local iterators / load_factor values, "
+                     "capacity values, observers (key_comp, hash_function, ...), heterogeneous lookup, self-assignment - property level only (c06_api)",
+                     "iterator invalidation, proxy reference types, heterogeneous lookup (IsValidKeyArg), C++20 ranges / three-way comparison "
                      "(harness is compiled as C++17)",
                      "libstdc++ itself (reference of the differential run)"],
 }
